@@ -11,6 +11,7 @@ correspondence of C04.  Proved here, for every line and box over any ordered fie
 * `clip_none_spec`: if `None` is returned no point of the line (`0 ≤ t ≤ 1`) lies in the box.
 -/
 import FloVerif.Model.Clip
+import FloVerif.Gen.Lines
 import Mathlib.Tactic.Ring
 import Mathlib.Tactic.NormNum.OfScientific
 import Mathlib.Tactic.FieldSimp
@@ -242,5 +243,86 @@ theorem clip_none_spec (line bounds : T2 (V2 K) (V2 K)) (h : lineClipToBounds li
 example : lineClipToBounds (K := ℚ) ⟨⟨0, 0⟩, ⟨4, 4⟩⟩ ⟨⟨1, 1⟩, ⟨2, 3⟩⟩ = some ⟨⟨1, 1⟩, ⟨2, 2⟩⟩ := by
   simp [lineClipToBounds, clipStep, fmin, fmax]
   norm_num
+
+/-! ### the generated function
+
+Since session 4 `line_clip_to_bounds` is also GENERATED from the Rust source (`Gen.line_clip_to_bounds`; the `for` over the four
+edges with its early `return None` is a `foldlRet`).  It is equal to the hand model, for every line and box, so the two theorems
+above are theorems about the generated code and the driver compares the implementation with the generated function. -/
+
+/-- the generated loop and the hand model's loop agree step by step -/
+theorem foldlRet_eq_foldl (l : List (T2 K K)) (t1 t2 : K) :
+    foldlRet l (T2.mk t1 t2) (fun st_5 it_5 =>
+      (if (it_5.t0 == (0.0 : K)) then
+        (if (decide (it_5.t1 < (0.0 : K))) then (Sum.inr (none : Option (T2 (V2 K) (V2 K)))) else (Sum.inl (T2.mk st_5.t0 st_5.t1)))
+      else
+        (if ((decide (it_5.t0 < (0.0 : K))) && (decide (st_5.t0 < (it_5.t1 / it_5.t0)))) then (Sum.inl (T2.mk (it_5.t1 / it_5.t0) st_5.t1))
+        else (if ((decide (it_5.t0 > (0.0 : K))) && (decide (st_5.t1 > (it_5.t1 / it_5.t0)))) then (Sum.inl (T2.mk st_5.t0 (it_5.t1 / it_5.t0)))
+        else (Sum.inl (T2.mk st_5.t0 st_5.t1)))))) =
+    match (l.map (fun d => (d.t0, d.t1))).foldl clipStep (some (t1, t2)) with
+    | none => Sum.inr none
+    | some s => Sum.inl (T2.mk s.1 s.2) := by
+  induction l generalizing t1 t2 with
+  | nil => simp [foldlRet]
+  | cons d l ih =>
+    have hnone : ∀ m : List (K × K), m.foldl clipStep none = none := by
+      intro m; induction m with
+      | nil => rfl
+      | cons x xs ihx => simpa [clipStep] using ihx
+    simp only [foldlRet, List.map_cons, List.foldl_cons]
+    by_cases hd : (d.t0 == (0.0 : K)) = true
+    · by_cases he : d.t1 < (0.0 : K)
+      · simp [clipStep, hd, he, hnone]
+      · simp only [clipStep, hd, he, if_true, if_false, decide_false, Bool.false_eq_true]
+        exact ih t1 t2
+    · simp only [hd, if_false, Bool.false_eq_true]
+      by_cases h1 : d.t0 < (0.0 : K) ∧ t1 < d.t1 / d.t0
+      · simp only [clipStep, hd, if_false, Bool.false_eq_true, h1, and_self, decide_true, Bool.and_self, if_true]
+        exact ih _ _
+      · have h1' : ((decide (d.t0 < (0.0 : K))) && (decide (t1 < d.t1 / d.t0))) = false := by
+          simpa using h1
+        by_cases h2 : d.t0 > (0.0 : K) ∧ t2 > d.t1 / d.t0
+        · simp only [clipStep, hd, if_false, Bool.false_eq_true, h1, h1', h2, and_self, decide_true, Bool.and_self, if_true]
+          exact ih _ _
+        · have h2' : ((decide (d.t0 > (0.0 : K))) && (decide (t2 > d.t1 / d.t0))) = false := by
+            simpa using h2
+          simp only [clipStep, hd, if_false, Bool.false_eq_true, h1, h1', h2, h2']
+          exact ih _ _
+
+/-- THE GENERATED `line_clip_to_bounds` IS THE HAND MODEL, for every line and box -/
+theorem generated_eq_model (line bounds : T2 (V2 K) (V2 K)) :
+    Gen.line_clip_to_bounds line bounds = lineClipToBounds line bounds := by
+  unfold Gen.line_clip_to_bounds lineClipToBounds
+  dsimp only
+  rw [foldlRet_eq_foldl]
+  simp only [List.zipWith_cons_cons, List.zipWith_nil_right, List.map_cons, List.map_nil]
+  cases [(-(line.t1.x - line.t0.x), line.t0.x - fmin bounds.t0.x bounds.t1.x),
+        (line.t1.x - line.t0.x, fmax bounds.t0.x bounds.t1.x - line.t0.x),
+        (-(line.t1.y - line.t0.y), line.t0.y - fmin bounds.t0.y bounds.t1.y),
+        (line.t1.y - line.t0.y, fmax bounds.t0.y bounds.t1.y - line.t0.y)].foldl clipStep (some ((0.0 : K), (1.0 : K))) with
+  | none => rfl
+  | some s =>
+    obtain ⟨a, b⟩ := s
+    simp only
+    by_cases hc : a > b ∨ a > (1.0 : K) ∨ b < (0.0 : K)
+    · have hc' : ((decide (a > b) || decide (a > (1.0 : K))) || decide (b < (0.0 : K))) = true := by
+        rcases hc with h | h | h <;> simp [h]
+      rw [if_pos hc', if_pos hc]
+    · have hc' : ¬ (((decide (a > b) || decide (a > (1.0 : K))) || decide (b < (0.0 : K))) = true) := by
+        simp only [Bool.or_eq_true, decide_eq_true_eq]
+        tauto
+      rw [if_neg hc', if_neg hc]
+
+/-- `clip_some_spec` for the generated code -/
+theorem generated_clip_some_spec (line bounds : T2 (V2 K) (V2 K)) (seg : T2 (V2 K) (V2 K))
+    (h : Gen.line_clip_to_bounds line bounds = some seg) :
+    ∃ t1 t2 : K, 0 ≤ t1 ∧ t1 ≤ t2 ∧ t2 ≤ 1 ∧ seg = T2.mk (along line t1) (along line t2) ∧
+      ∀ t, 0 ≤ t → t ≤ 1 → (InBox bounds (along line t) ↔ t1 ≤ t ∧ t ≤ t2) :=
+  clip_some_spec line bounds seg (by rw [← generated_eq_model]; exact h)
+
+/-- `clip_none_spec` for the generated code -/
+theorem generated_clip_none_spec (line bounds : T2 (V2 K) (V2 K)) (h : Gen.line_clip_to_bounds line bounds = none) :
+    ∀ t, 0 ≤ t → t ≤ 1 → ¬ InBox bounds (along line t) :=
+  clip_none_spec line bounds (by rw [← generated_eq_model]; exact h)
 
 end C04Clip
